@@ -45,9 +45,22 @@ prop("C01", [
                  "SQL statement contracts are assumed by the proof; engine B checks them only within its bound"])
 prop("C09", [
     dict(engine="verus", unit="pool", fns=["Pool::select_requested_address", "Pool::select_new_address", "Pool::select_address", "Pool::allocate_address"]),
+    dict(engine="verus", unit="dhcphandlers", fns=["handle_request", "handle_discover"]),
     dict(POOL_B, checks=["sql_in_use", "allocate_address/C09"]),
 ], explanation="select_address: a held in-pool address is kept (requested one first); refusal only on exhaustion",
     assumptions=["SQL statement contracts assumed; engine B bounded", "Display/FromStr of Ipv4Addr are inverse on canonical text (axioms)"])
+prop("C10", [
+    dict(engine="verus", unit="dhcphandlers", fns=["handle_discover", "handle_request", "handle_pkt", "Pool::allocate_address", "Pool::select_address"]),
+    dict(engine="verus", unit="dhcpgetters"),
+    dict(POOL_B, checks=["allocate_address/C10"]),
+], explanation="OFFER and ACK carry option 51 = recorded expiry - start, within [300, 86400] (defaults), record starts at the reply time",
+    assumptions=["policies cannot change min/max lease (apply_policies frame, assumed here)", "ResponseOptions / DhcpOptions accessor contracts assumed in unit dhcphandlers (HashMap glue)"])
+prop("C13", [
+    dict(engine="verus", unit="dhcphandlers", fns=["handle_discover", "handle_request", "handle_pkt", "Pool::allocate_address"]),
+    dict(engine="verus", unit="dhcpgetters"),
+    dict(POOL_B, checks=["allocate_address/C13"]),
+], explanation="dispatch on message type, foreign server-id refused before any pool access, errors leave the table unchanged, a reply touches only the row of yiaddr and echoes xid/chaddr/giaddr/flags",
+    assumptions=["ResponseOptions / DhcpOptions accessor contracts assumed in unit dhcphandlers (HashMap glue); the DhcpParse impls behind them are proved in unit dhcpgetters"])
 prop("C20", [
     dict(POOL_B, checks=["sql_metrics", "sql_list"]),
 ], level="exploration", explanation="gauge query and lease listing query against the row set, bounded exhaustive on real SQLite")
@@ -66,6 +79,8 @@ prop("C05", [
     dict(engine="verus", unit="dnsparse"),
     dict(engine="verus", unit="pktbuf"),
     dict(engine="verus", unit="dhcpparse"),
+    dict(engine="verus", unit="dnsser", fns=["push_u16", "push_u32", "push_label", "push_str", "make_edns_opt", "push_rr", "DNSPkt::serialise", "DNSPkt::serialise_with_size"]),
+    dict(engine="verus", unit="dhcphandlers", fns=["to_array", "handle_pkt", "handle_discover", "handle_request"]),
     dict(engine="kani", sets=["net_subnet"]),
 ], explanation="no-panic / no-overflow / in-bounds / termination of the network-facing decoders for all byte strings of all lengths",
     assumptions=["async handlers are verified as a single task; process-level liveness ('still answers the next request') is not decided, only its in-process cause (a panic)"])
